@@ -923,11 +923,11 @@ func (c *vsCase) liveFinish(wait bool) {
 				rec := c.post(cl, "PING "+token, vsPostOpt{})
 				cl.mu.Unlock()
 				if rec.Acked {
-					deadline := time.NewTimer(30 * time.Second)
+					deadline := time.NewTimer(15 * time.Second)
 					select {
 					case <-cl.liveExited:
 					case <-deadline.C:
-						c.liveNote(cl, "the PONG to the final PING did not arrive within 30 s")
+						c.liveNote(cl, "the PONG to the final PING did not arrive within 15 s")
 					case <-c.ctx.Done():
 					}
 					deadline.Stop()
